@@ -108,7 +108,7 @@ def fns():
                sig_sub=[(r"lexer: &'b mut ArxmlLexer\)", "lexer: &mut ArxmlLexer<'b>)")],
                requires=['old(lexer).inv()'],
                ensures=['final(lexer).inv() && final(lexer).same_buf(old(lexer))',
-                        'final(lexer).measure() <= old(lexer).measure()',
+                        'final(lexer).measure() <= old(lexer).measure() && final(lexer).measure() >= 0',
                         'r is Ok ==> 1 <= final(self).line <= 1 + nl(final(lexer).buffer@)',
                         'r matches Err(e) ==> 1 <= err_line(e) <= 1 + nl(final(lexer).buffer@) && final(self).line == old(self).line',
                         'r matches Ok(ev) ==> (ev is EndOfFile || final(lexer).measure() < old(lexer).measure())',
